@@ -117,7 +117,7 @@ def gen_lookup_ops(rng, nops, stack):
             k = rng.randrange(nsp)
             if k not in closed and k not in entered: ops.append('en %d' % k); entered.append(k)
         elif r < 0.84 and entered:
-            k = entered.pop(rng.randrange(len(entered))) if rng.random() < 0.3 else entered.pop(); ops.append('ex %d' % k)
+            k = entered.pop(); ops.append('ex %d' % k)          # exits are well nested here: out-of-order exits are C06's subject
         elif r < 0.90 and nsp:
             k = rng.randrange(nsp)
             if k not in closed: ops.append('rc %d' % k)
@@ -188,7 +188,7 @@ PROPERTY = {
                           'C07.span_map_spec', 'C07.visible_iff_accepted', 'C07.lookups_hide_rejected', 'C07.scope_complete'],
     'streams': [_a, _b, _c, _l],
     'rule': 'one case = a stack of 1-5 layers (plain / global filter leaf / recording layer with a per-layer filter expression of depth <=2 incl. context-dependent closures, and/or/not, Option, reload, Box) and a history of '
-            'events, spans, enter/exit/record/close on created spans over 2-8 callsites (so interest caches are hit) in two contexts; stream probe adds enabled!-style probes; non-trivial = a filtered layer present, something delivered and something withheld. Stream lookup: stacks with at least one filtered layer, span trees built with contextual / explicit / root parents, events with all three parent kinds, enter/exit (also out of order)/record/close; every receiving layer logs event_span, event_scope, span(id).parent(), span_scope, lookup_current; non-trivial = some scope of length >=2 and two layers shown different things',
+            'events, spans, enter/exit/record/close on created spans over 2-8 callsites (so interest caches are hit) in two contexts; stream probe adds enabled!-style probes; non-trivial = a filtered layer present, something delivered and something withheld. Stream lookup: stacks with at least one filtered layer, span trees built with contextual / explicit / root parents, events with all three parent kinds, enter/exit (well nested)/record/close; every receiving layer logs event_span, event_scope, span(id).parent(), span_scope, lookup_current; non-trivial = some scope of length >=2 and two layers shown different things',
     'trusted_base': ['hand-written model Core/Filtering.lean', 'executor h_layers (real Registry + Filtered + FilterExt, synthetic metadata through Dispatch with per-callsite interest caching)', 'hand-written model Core/Lookup.lean', 'executor h_lookup'],
     'assumptions': ['lifecycle ops follow the Span protocol (exit after enter, close once, after the last exit)'],
 }
